@@ -105,6 +105,11 @@ def parse_output(out, harnesses):
                 st, detail = 'fail', '; '.join(fc)[:1500]
                 if not fc:
                     st, detail = 'undecided', 'FAILED without failed checks: ' + ' '.join(txt.split())[:300]
+                elif any(re.search(r'Kani does not support|is not currently supported by Kani|unsupported_construct', c) for c in fc):
+                    # Kani hit a construct it cannot model (e.g. zeroize's volatile writes into a Vec's spare
+                    # capacity): every other failed check of this run is a consequence of the havocked pointer -
+                    # a tool limit, never an alarm
+                    st, detail = 'undecided', 'tool limit (unsupported construct): ' + '; '.join(fc)[:600]
             else:
                 st, detail = 'undecided', 'no verdict: ' + ' '.join(txt.split())[-300:]
         res[short] = {'status': st, 'detail': detail, 'time_s': t, 'full_name': h, 'checks': checks}
